@@ -35,7 +35,10 @@ def plan(tier, seed):
     items = W.cost_table()
     # cost here is dominated by the number of variants, not signatures
     items = [(n, d, 1) for n, d, _ in items]
-    return [{"i": i, "items": b} for i, b in enumerate(W.pack(items, NSHARDS[tier]))] + [{"mutate": True, "dim": d} for d in (2, 3, 4)] + \
+    # every bin of operations runs twice, each time on half of the sampled signatures: once with and once without
+    # vector.register_awkward() (main shifts the two modes by seed and repetition)
+    return [{"i": i, "items": b, "half": h, "_registered": h} for i, b in enumerate(W.pack(items, NSHARDS[tier])) for h in (0, 1)] + \
+        [{"mutate": True, "dim": d} for d in (2, 3, 4)] + \
         [{"outforms": True, "dim": d} for d in (2, 3, 4)] + [{"ufuncs": True, "dim": d} for d in (2, 3, 4)]
 
 
@@ -291,7 +294,7 @@ def run_shard(spec, tier, seed):
     if spec.get("outforms"):
         return run_outforms(spec, tier, seed)
     res = Result()
-    sweep.run(spec["items"], tier, seed, res, "C03")
+    sweep.run(spec["items"], tier, seed, res, "C03", half=spec.get("half"))
     return res
 
 
